@@ -19,14 +19,18 @@ import (
 )
 
 var (
-	flagProp   = flag.String("prop", "", "property id (C01..C19), comma list, or 'all'")
-	flagTier   = flag.String("tier", "", "quick or thorough (default: $VERIF_TIER or quick)")
-	flagRepo   = flag.String("repo", "/repo", "repository root")
-	flagVerif  = flag.String("verif", "", "verif root (default: directory above the binary)")
-	flagReplay = flag.String("replay", "", "replay file: re-evaluate that obligation and print the diagnosis")
-	flagList   = flag.Bool("list", false, "print every obligation")
-	flagMani   = flag.Bool("manifest", false, "print MANIFEST.json generated from the registered properties")
-	flagNoEv   = flag.Bool("no-evidence", false, "do not write evidence/replay files (used by the audit)")
+	flagProp    = flag.String("prop", "", "property id (C01..C19), comma list, or 'all'")
+	flagTier    = flag.String("tier", "", "quick or thorough (default: $VERIF_TIER or quick)")
+	flagRepo    = flag.String("repo", "/repo", "repository root")
+	flagVerif   = flag.String("verif", "", "verif root (default: directory above the binary)")
+	flagReplay  = flag.String("replay", "", "replay file: re-evaluate that obligation and print the diagnosis")
+	flagList    = flag.Bool("list", false, "print every obligation")
+	flagOverlay = flag.String("overlay", "", "JSON file mapping source paths to replacement files (sensitivity audit / seeded self-test)")
+	flagSelf    = flag.Bool("selftest", false, "evaluate every seeded change in seeded/ and every benign variant in selftest/benign/ through the overlay")
+	flagWorker  = flag.String("audit-worker", "", "internal: evaluate a batch of mutants (JSON file) and print one JSON outcome per line")
+	flagNoAudit = flag.Bool("no-audit", false, "thorough tier without the mutant sensitivity audit")
+	flagMani    = flag.Bool("manifest", false, "print MANIFEST.json generated from the registered properties")
+	flagNoEv    = flag.Bool("no-evidence", false, "do not write evidence/replay files (used by the audit)")
 )
 
 func verifRoot() string {
@@ -70,8 +74,23 @@ func main() {
 		}
 	}
 	root := verifRoot()
+	if *flagWorker != "" {
+		auditWorker(*flagWorker)
+		return
+	}
 	if *flagMani {
 		writeManifest(root)
+		return
+	}
+	if *flagSelf {
+		ran, bad, lines := selfTest(root, strings.TrimSpace(*flagProp), true)
+		for _, l := range lines {
+			fmt.Println(l)
+		}
+		fmt.Printf("selftest: %d seeded changes / variants evaluated, %d expectation(s) not met\n", ran, bad)
+		if bad > 0 {
+			os.Exit(1)
+		}
 		return
 	}
 	var only *replayFile
@@ -114,7 +133,12 @@ func main() {
 	}
 
 	t0 := time.Now()
-	prog, err := ir.Load(ir.Options{Dir: *flagRepo, Whole: tier == "thorough"})
+	overlay, oerr := readOverlay(*flagOverlay)
+	if oerr != nil {
+		fmt.Println("cannot read overlay:", oerr)
+		os.Exit(2)
+	}
+	prog, err := ir.Load(ir.Options{Dir: *flagRepo, Whole: tier == "thorough", Overlay: overlay})
 	exit := 0
 	if err != nil {
 		// A tree that does not load or type-check cannot be analysed: fail every requested property.
@@ -122,7 +146,7 @@ func main() {
 			rp := writeReplay(root, id, 1, &eng.Obligation{Rule: "LOAD", Kind: "load", Construct: "load " + *flagRepo, Status: eng.Unresolved, Detail: err.Error()}, tier)
 			fmt.Printf("LOAD-FAILURE: %v\n", err)
 			fmt.Printf("VIOLATION property=%s replay=%s\n", id, rp)
-			writeEvidence(root, id, tier, seed, nil, nil, ir.Stats{}, time.Since(t0), 1, err.Error())
+			writeEvidence(root, id, tier, seed, nil, nil, ir.Stats{}, time.Since(t0), 1, err.Error(), nil)
 		}
 		os.Exit(1)
 	}
@@ -190,8 +214,27 @@ func main() {
 		if len(fails) > 0 {
 			exit = 1
 		}
+		// thorough: the checker's own regression corpus for this property (seeded changes must fire, benign variants must not)
+		if tier == "thorough" && only == nil && !*flagNoEv && overlay == nil {
+			ran, bad, lines := selfTest(root, id, false)
+			for _, l := range lines {
+				fmt.Println(l)
+			}
+			fmt.Printf("%s self-test: %d seeded changes / benign variants of this property re-evaluated through the overlay, %d expectation(s) not met\n", id, ran, bad)
+			c.Note("self-test: %d seeded changes / benign variants re-evaluated, %d expectations not met", ran, bad)
+			if bad > 0 {
+				exit = 1
+				fmt.Printf("VIOLATION property=%s replay=%s\n", id, writeReplay(root, id, 99, &eng.Obligation{Rule: "SELFTEST", Kind: "selftest", Construct: "seeded corpus", Status: eng.Undecided, Detail: strings.Join(lines, " | ")}, tier))
+			}
+		}
+		var audit *auditResult
+		if tier == "thorough" && !*flagNoAudit && !*flagNoEv && len(fails) == 0 && only == nil {
+			audit = runAudit(id, c, seed)
+			fmt.Printf("%s sensitivity audit: %d mutants of %d anchored functions, %d invalid (do not type-check), %d killed, %d survived (%.0fs)\n",
+				id, audit.Generated, audit.Functions, audit.Invalid, audit.Killed, audit.Survived, audit.Seconds)
+		}
 		if !*flagNoEv {
-			writeEvidence(root, id, tier, seed, pr, c, stats, loadDur+time.Since(t1), len(fails), "")
+			writeEvidence(root, id, tier, seed, pr, c, stats, loadDur+time.Since(t1), len(fails), "", audit)
 		}
 	}
 	os.Exit(exit)
@@ -216,7 +259,7 @@ func writeReplay(root, id string, n int, o *eng.Obligation, tier string) string 
 	return path
 }
 
-func writeEvidence(root, id, tier string, seed int, pr *rules.Property, c *eng.Ctx, st ir.Stats, dur time.Duration, fails int, loadErr string) {
+func writeEvidence(root, id, tier string, seed int, pr *rules.Property, c *eng.Ctx, st ir.Stats, dur time.Duration, fails int, loadErr string, audit *auditResult) {
 	dir := filepath.Join(root, "evidence")
 	os.MkdirAll(dir, 0o755)
 	level := "other"
@@ -284,6 +327,10 @@ func writeEvidence(root, id, tier string, seed int, pr *rules.Property, c *eng.C
 		cov["exhaustive"] = false
 		if len(c.Notes) > 0 {
 			cov["notes"] = c.Notes
+		}
+		if audit != nil {
+			cov["sensitivity_audit"] = audit
+			cov["evaluations"] = n + audit.Generated - audit.Invalid
 		}
 		ev["assumptions"] = append([]string{
 			"every CFG path of the SSA form is assumed feasible (path-insensitive over-approximation)",
@@ -369,4 +416,27 @@ func init() {
 	for _, id := range allProps {
 		naReasons[id] = "no check registered yet in this build round: the structural rule instances planned in DESIGN.md §4 for " + id + " are not implemented, so nothing is claimed"
 	}
+}
+
+func readOverlay(path string) (map[string][]byte, error) {
+	if path == "" {
+		return nil, nil
+	}
+	b, err := os.ReadFile(path)
+	if err != nil {
+		return nil, err
+	}
+	var m map[string]string
+	if err := json.Unmarshal(b, &m); err != nil {
+		return nil, err
+	}
+	out := map[string][]byte{}
+	for k, v := range m {
+		c, err := os.ReadFile(v)
+		if err != nil {
+			return nil, err
+		}
+		out[k] = c
+	}
+	return out, nil
 }
